@@ -62,6 +62,7 @@ def gen_problem(rng, t):
         rng.choice(p.labels[1:])["ext"] = 1
         p.has_ext = True
     p.src_on_fixed = gen.point_source_on_constrained(p, rng)
+    gen.use_all_bdry(p, (1, 2, 3))        # heat flux, convection, radiation: every condition the problem defines is carried by a line
     return p
 
 
